@@ -126,6 +126,10 @@ pub struct Profile {
     /// number of update ops per index in the first round / in the later rounds
     pub first_items: IntDist,
     pub updates: IntDist,
+    /// what the later rounds do, in order (round 1 is the first entry); rounds beyond the list are mixed
+    pub round_kinds: Vec<RoundKind>,
+    /// when not empty: `round_kinds` is drawn per case from these (weight, plan) pairs
+    pub round_plans: Vec<(u32, Vec<RoundKind>)>,
     /// probability that the count of the first round is taken around the bucket capacity
     pub p_cap_boundary: f64,
     /// probability of a round deleting everything (empty -> non-empty -> empty)
@@ -165,6 +169,12 @@ pub struct Profile {
     pub after_round: AfterRound,
     /// probability of a metric change (`prepare`) of an index at the start of a later round
     pub p_prepare: f64,
+    /// probability that an index whose metric was just changed gets NO update op in that round
+    /// (the rebuild then runs without any pending mark)
+    pub p_quiet_after_prepare: f64,
+    /// after a failed / cancelled build: probability of changing the metric in the same transaction
+    /// (which wipes whatever the build left) and building again, instead of aborting
+    pub p_prepare_after_failed: f64,
     pub prepare_targets: Vec<(u32, Metric)>,
 
     /// number of nns queries after each successful build
@@ -304,7 +314,27 @@ pub struct CaseStats {
     pub panicked: bool,
 }
 
+/// A later round forced to a shape (profiles that need a particular history: shrink, then grow).
+#[derive(Clone, Debug)]
+pub enum RoundKind {
+    /// the op mix of the profile
+    Mixed,
+    /// only deletions of present items: between the two fractions of them
+    Shrink(f64, f64),
+    /// only additions of new items
+    Grow(IntDist),
+    /// only additions of new items, all within 1e-3 of one of the stored vectors: they all go down the same
+    /// path of every tree and over-fill one bucket
+    GrowClustered(IntDist),
+}
+
 struct Gen<'p> {
+    /// the op kind every update op of this round must have (see `RoundKind`)
+    forced_kind: Option<u8>,
+    /// the centre the vectors of this round are clustered around (see `RoundKind::GrowClustered`)
+    cluster: Option<Vec<f32>>,
+    /// the plan of the later rounds of this case
+    kinds: Vec<RoundKind>,
     p: &'p Profile,
     r: Prng,
     idx: Vec<IndexState>,
@@ -470,6 +500,9 @@ impl<'p> Gen<'p> {
             stats: CaseStats::default(),
             forced,
             empty_target: None,
+            forced_kind: None,
+            cluster: None,
+            kinds: Vec::new(),
             txn_broken: false,
             broken_count: 0,
         };
@@ -577,6 +610,10 @@ impl<'p> Gen<'p> {
     }
 
     fn gen_vec(&mut self, i: usize) -> Vec<f32> {
+        if let Some(c) = &self.cluster {
+            let c = c.clone();
+            return c.iter().map(|x| x + self.r.unit() * 1e-3).collect();
+        }
         let family = if self.r.chance(self.p.p_family_mix) {
             *self.r.weighted(&self.p.families)
         } else {
@@ -796,7 +833,10 @@ impl<'p> Gen<'p> {
             (mix.clear, 6),
             (mix.wrong_dim, 7),
         ];
-        let kind = *self.r.weighted(&table);
+        let kind = match self.forced_kind {
+            Some(k) if !first => k,
+            _ => *self.r.weighted(&table),
+        };
         let w = self.idx[i].w();
         let op = match kind {
             0 => {
@@ -1160,6 +1200,17 @@ impl<'p> Gen<'p> {
                 bail_if_dead!(ex.exec(&Op::Open(w)));
                 continue;
             }
+            if attempts < 3 && !self.txn_broken && self.r.chance(self.p.p_prepare_after_failed) {
+                // a metric change wipes the forest and the metadata, so what the failed build left does not
+                // matter: the one continuation besides an abort that the crate's contract defines
+                let others: Vec<Metric> = Metric::ALL.iter().copied().filter(|m| *m != w.metric).collect();
+                let m = self.forced.target.filter(|m| *m != w.metric).unwrap_or(*self.r.pick(&others));
+                bail_if_dead!(ex.exec(&Op::Dump));
+                bail_if_dead!(self.step(ex, Op::Prepare(w, m)));
+                bail_if_dead!(ex.exec(&Op::Dump));
+                bail_if_dead!(ex.exec(&Op::NeedBuild(self.idx[i].w())));
+                continue;
+            }
             let was_broken = self.txn_broken;
             if was_broken {
                 self.broken_count += 1;
@@ -1478,7 +1529,15 @@ impl<'p> Gen<'p> {
         } else {
             1
         };
-        let rounds = p.rounds.sample(&mut self.r).max(min_rounds);
+        self.kinds = if p.round_plans.is_empty() {
+            p.round_kinds.clone()
+        } else {
+            self.r.weighted(&p.round_plans).clone()
+        };
+        let rounds = p.rounds.sample(&mut self.r).max(min_rounds).max(self.kinds.len() as u64 + 1);
+        if !self.kinds.is_empty() {
+            ex.exec(&Op::Note(format!("round plan {:?}", self.kinds)));
+        }
         bail_if_dead!(ex.exec(&Op::Begin));
         for round in 0..rounds {
             if self.broken_count >= 3 {
@@ -1491,9 +1550,11 @@ impl<'p> Gen<'p> {
                 bail_if_dead!(ex.exec(&Op::Note("final-txn".into())));
             }
             // metric changes
+            let mut quiet = vec![false; self.idx.len()];
             if !first {
                 for i in 0..self.idx.len() {
                     if self.r.chance(p.p_prepare) {
+                        quiet[i] = self.r.chance(p.p_quiet_after_prepare);
                         let m = *self.r.weighted(&p.prepare_targets);
                         let m = self.forced.target.unwrap_or(m);
                         let w = self.idx[i].w();
@@ -1506,6 +1567,9 @@ impl<'p> Gen<'p> {
             // how many update ops per index
             let mut plan: Vec<usize> = Vec::new();
             for i in 0..self.idx.len() {
+                if quiet[i] {
+                    continue;
+                }
                 let wipe = !first && !self.idx[i].items.is_empty() && self.r.chance(p.p_wipe_round);
                 if wipe {
                     if self.r.chance(0.3) {
@@ -1524,6 +1588,30 @@ impl<'p> Gen<'p> {
                     continue;
                 }
                 let mut k = if first { &p.first_items } else { &p.updates }.sample(&mut self.r) as usize;
+                if !first {
+                    match self.kinds.get(round as usize - 1).cloned() {
+                        Some(RoundKind::Shrink(lo, hi)) => {
+                            let f = lo + (hi - lo) * (self.r.below(1000) as f64 / 1000.0);
+                            k = (self.idx[i].items.len() as f64 * f) as usize;
+                            self.forced_kind = Some(4);
+                        }
+                        Some(RoundKind::Grow(d)) => {
+                            k = d.sample(&mut self.r) as usize;
+                            self.forced_kind = Some(0);
+                        }
+                        Some(RoundKind::GrowClustered(d)) => {
+                            k = d.sample(&mut self.r) as usize;
+                            self.forced_kind = Some(0);
+                            let dims = self.idx[i].dims;
+                            let centre = match self.present_id(i) {
+                                Some(id) => self.idx[i].items[&id].clone(),
+                                None => (0..dims).map(|_| self.r.unit()).collect(),
+                            };
+                            self.cluster = Some(centre);
+                        }
+                        _ => {}
+                    }
+                }
                 let forced_count = if first { self.forced.first_items } else { None };
                 if let Some(n) = forced_count {
                     k = n as usize;
@@ -1586,6 +1674,8 @@ impl<'p> Gen<'p> {
                     return false;
                 }
             }
+            self.forced_kind = None;
+            self.cluster = None;
             if !first && !self.empty_prepare(ex) {
                 return false;
             }
